@@ -1176,9 +1176,61 @@ def _gen_apgm(rng, cplx, edge):
 def gen_exact(rng, alg):
     """EXACT-ARITHMETIC stream: small-integer / dyadic data and power-of-two parameters chosen so that every operation of
     the first steps (matrix products, soft thresholds, clipping, scalings) is exact in binary64 on both sides - the states
-    are then compared bit for bit (no tolerance).  Classes: ladmm, padmm, pdhg (linear C), pgm (base step size)."""
+    are then compared bit for bit (no tolerance).  Classes: ladmm, padmm, pdhg (linear C), pgm (base step size), admm
+    (LinearSubproblemSolver / MatrixSubproblemSolver on identity-like constraints); 1-d, 2-d and block variables."""
     n = int(rng.integers(2, 5))
     xs = [n]
+    dy3 = lambda sh: (rng.integers(-8, 9, size=sh) / 4.0).tolist()  # noqa: E731
+    p2 = lambda ks: float(2.0 ** int(_pick(rng, ks)))  # noqa: E731
+    fn = lambda: _pick(rng, [{"k": "l1", "w": _pick(rng, [0.5, 1.0, 2.0, 0.25])}, {"k": "nonneg"}, {"k": "zero"}])  # noqa: E731
+    shaped = int(rng.integers(0, 3)) if alg in ("ladmm", "pdhg", "admm") else 0
+    if shaped == 1:
+        xs = [int(rng.integers(2, 4)), int(rng.integers(2, 4))]  # 2-d variable
+    elif shaped == 2:
+        xs = [[int(rng.integers(1, 4))], [int(rng.integers(1, 4))]]  # block variable
+    if shaped and alg in ("ladmm", "pdhg"):
+        # 2-d / block variables: identity-like and (2-d) circular finite-difference operators - integer matrices on the flat vector
+        ops = [{"t": "id"}, {"t": "sid", "s": _pick(rng, [2.0, -1.0, 0.5])}]
+        if shaped == 1:
+            ops += [{"t": "fd", "axes": int(rng.integers(0, 2)), "circular": True, "append": None}, {"t": "fd", "axes": None, "circular": True}]
+        C = _pick(rng, ops)
+        _, zsh = op_dense(C, xs)
+        nx = size_of(xs)
+        if alg == "ladmm":
+            return {"alg": "ladmm", "cplx": False, "xshape": xs, "C": C, "f": fn(), "g": fn(), "mu": p2([-3, -2, -4]), "nu": p2([0, 1, -1]),
+                    "x0": dy3((nx,)), "exact": True}
+        return {"alg": "pdhg", "cplx": False, "xshape": xs, "C": C, "nl": None, "f": fn(), "g": fn(), "tau": p2([-2, -3, -1]),
+                "sigma": p2([-2, -3, -1]), "alpha": _pick(rng, [1.0, 0.0, 0.5]), "x0": dy3((nx,)), "z0": dy3((size_of(zsh),)),
+                "exact": True}
+    if alg == "admm":
+        # x-step (2s I + sum_i rho_i s_i^2 I) x = rhs with a POWER-OF-TWO total T: the library's conjugate-gradient solver reaches
+        # the exact solution in one iteration (alpha = num / (T num) = 1/T, residual exactly 0) and the Cholesky solve of
+        # MatrixSubproblemSolver is exact for T a power of four; every constraint is the identity or a power-of-two multiple
+        for _ in range(50):
+            T = p2([-1, 0, 1, 2])
+            withf = bool(rng.integers(0, 2))
+            N = int(rng.integers(1, 4))
+            k = N + (1 if withf else 0)
+            parts = {1: [T], 2: [T / 2, T / 2], 3: [T / 2, T / 4, T / 4], 4: [T / 4] * 4}[k]
+            parts = [parts[i] for i in rng.permutation(k)]
+            if withf and parts[0] not in (0.5, 1.0, 2.0):
+                continue
+            break
+        else:
+            raise Infra("exact ADMM recipe")
+        f = None
+        if withf:
+            f = {"k": "sqloss", "s": parts[0] / 2.0, "A": None, "yshape": [list(s_) for s_ in xs] if is_block(xs) else list(xs),
+                 "y": dy3((size_of(xs),))}
+            parts = parts[1:]
+        Cs, rho = [], []
+        for c in parts:
+            sc = _pick(rng, [1.0, 1.0, 2.0, 0.5, -1.0])
+            Cs.append({"t": "id"} if sc == 1.0 else {"t": "sid", "s": sc})
+            rho.append(c / (sc * sc))
+        solver = "matrix" if (shaped == 0 and T in (0.25, 1.0, 4.0) and rng.integers(0, 2)) else "linear"
+        return {"alg": "admm", "cplx": False, "xshape": xs, "C": Cs, "g": [fn() for _ in Cs], "f": f, "rho": rho,
+                "alpha": _pick(rng, [1.0, 1.0, 0.5, 1.5]), "solver": solver, "x0": dy3((size_of(xs),)), "exact": True}
     imat = lambda m_, n_: {"t": "mat", "M": rng.integers(-2, 3, size=(m_, n_)).astype(float).tolist()}  # noqa: E731
     op = lambda: _pick(rng, [imat(int(rng.integers(1, 4)), n), {"t": "id"}, {"t": "fd", "axes": 0, "circular": True, "append": None},  # noqa: E731
                              {"t": "sid", "s": _pick(rng, [2.0, -1.0, 0.5])}])
@@ -1217,7 +1269,7 @@ def gen_exact(rng, alg):
     raise Infra("exact stream: " + alg)
 
 
-EXACT_ALGS = ["ladmm", "padmm", "pdhg", "pgm"]
+EXACT_ALGS = ["admm", "ladmm", "padmm", "pdhg", "pgm"]
 ALGS = ["admm", "ladmm", "padmm", "nlpadmm", "pdhg", "pgm", "apgm"]
 
 
